@@ -103,6 +103,38 @@ func ruleSchemaEmbed(c *Ctx, r *Report) {
 				return true
 			}
 			n++
+			// per-element actions: annotateEntry(elem)/annotateChildren(elem) must run for every
+			// element — no condition inside the loop may guard them (an early `continue` placed
+			// before them shows up as a negative fact) — except that the recursion of
+			// annotateChildren is limited to directories (ch.IsDir()).
+			elem := types.Object(nil)
+			if rs.Value != nil {
+				elem = ObjOf(info, rs.Value)
+			}
+			sites, bad := 0, ""
+			for _, call := range CallsIn(info, rs.Body, P("ygen")+".annotateEntry", P("ygen")+".annotateChildren") {
+				if len(call.Args) == 0 || elem == nil || ObjOf(info, call.Args[0]) != elem {
+					continue
+				}
+				sites++
+				recursion := FullName(Callee(info, call)) == P("ygen")+".annotateChildren" && name == "annotateChildren"
+				for _, ft := range c.FactsAt(f, call, false) {
+					if ft.Cond == nil || ft.Cond.Pos() < rs.Body.Pos() || ft.Cond.Pos() > rs.Body.End() {
+						continue
+					}
+					if recursion && ft.Kind == "cond" && ft.Pos {
+						if cc, ok := ast.Unparen(ft.Cond).(*ast.CallExpr); ok && FullName(Callee(info, cc)) == yangEntry+".IsDir" {
+							continue
+						}
+					}
+					bad = types.ExprString(ft.Cond)
+				}
+			}
+			if sites > 0 {
+				r.Check(bad == "", fmt.Sprintf("ygen.%s:loop#%d:no-filter", name, n), c.Pos(rs.Pos()), fmt.Sprintf("%d per-element annotation call(s) run for every element (recursion only limited to directories)", sites),
+					"ygen."+name+" annotates an element only under `"+bad+"`: nodes goyang reports (e.g. top-level leaves, leaf-lists, choices) are skipped while building the embedded schema and are missing from Schema()/UnzipSchema()")
+				return true
+			}
 			skips := len(branchStmts(rs.Body, token.CONTINUE)) + len(branchStmts(rs.Body, token.BREAK))
 			r.Check(skips == 0, fmt.Sprintf("ygen.%s:loop#%d:no-filter", name, n), c.Pos(rs.Pos()), "no element is skipped", "ygen."+name+" skips some modules/children while building the embedded schema: nodes goyang reports (e.g. top-level leaves, leaf-lists, choices) are missing from Schema()/UnzipSchema()")
 			return true
